@@ -1,9 +1,8 @@
 // Reference arithmetic for the lattice explorer (E1).
 //
-// RJ = second-order forward-mode jet in NV=4 variables (x,y,z,t) over __float128, carrying in parallel
-// a *magnitude jet*: the sum of |leaf| over the fully expanded expression for every slot (value,
-// gradient, Hessian).  The magnitude slots give S, the scale against which roundoff is measured
-// (|lib-ref| <= K*u*S); they are computed with the true arguments of the elementary functions.
+// RJ = second-order forward-mode jet in NV=4 variables (x,y,z,t) over __float128, carrying in parallel, for every
+// slot (value, gradient, Hessian), a first-order running error bound in units of u.  These bounds give S, the scale
+// against which roundoff is measured (|lib-ref| <= K*u*S).
 #pragma once
 #include <quadmath.h>
 #include <cmath>
@@ -15,9 +14,15 @@ static const int NV = 4;
 static inline Q qabs(Q a) { return fabsq(a); }
 static const Q PIq = M_PIq;
 
+// Every slot carries, next to its value, a first-order *running error bound* in units of the unit roundoff u: the
+// absolute error a working-precision evaluation of the same quantity along this route can accumulate
+// (inputs and constants count one rounding; x+y: e_x+e_y+|x+y|; x*y: |x|e_y+|y|e_x+|xy|; f(x): |f'(x)|e_x+|f(x)|).
+// This is the scale S of the comparison rule |lib-ref| <= K*u*S.  It follows the conditioning of the expression
+// (cancellation, large trigonometric arguments, pow with large exponents) without the exponential blow-up that a
+// product of leaf magnitudes suffers in deep function chains (law-of-the-wall fields, SA closures).
 struct RJ {
   Q v, g[NV], h[NV][NV];     // value jet
-  Q mv, mg[NV], mh[NV][NV];  // magnitude jet
+  Q mv, mg[NV], mh[NV][NV];  // running error bounds of the slots, in units of u
   void zero() {
     v = 0; mv = 0;
     for (int i = 0; i < NV; i++) { g[i] = 0; mg[i] = 0; for (int j = 0; j < NV; j++) { h[i][j] = 0; mh[i][j] = 0; } }
@@ -27,49 +32,60 @@ struct RJ {
   RJ(double c) { zero(); v = c; mv = qabs((Q)c); }
   RJ(long double c) { zero(); v = c; mv = qabs((Q)c); }
   RJ(int c) { zero(); v = c; mv = qabs((Q)c); }
-  static RJ var(Q c, int k) { RJ r(c); r.g[k] = 1; r.mg[k] = 1; return r; }
+  static RJ var(Q c, int k) { RJ r(c); r.g[k] = 1; return r; }
 };
+// error of a product of two quantities (x, ex), (y, ey)
+static inline Q perr(Q x, Q ex, Q y, Q ey) { return qabs(x) * ey + qabs(y) * ex + qabs(x * y); }
 
-// f(u) with f and its first three derivatives evaluated at the true argument.  The magnitude slots also carry
-// the sensitivity of each slot to a relative perturbation of the argument (|d slot / d u| * |u|), so that S is a
-// condition-aware scale: rounding the argument of sin/cos/exp/pow counts as roundoff however large it is.
+// f(u) with f and its first three derivatives evaluated at the true argument
 static inline RJ lift(const RJ& u, Q f, Q f1, Q f2, Q f3) {
-  RJ r; r.v = f; Q a1 = qabs(f1), a2 = qabs(f2), a3 = qabs(f3), au = u.mv;
-  r.mv = qabs(f) + a1 * au;
+  RJ r; Q eu = u.mv;
+  Q e0 = qabs(f1) * eu + qabs(f), e1 = qabs(f2) * eu + qabs(f1), e2 = qabs(f3) * eu + qabs(f2);
+  r.v = f; r.mv = e0;
   for (int i = 0; i < NV; i++) {
-    r.g[i] = f1 * u.g[i]; r.mg[i] = (a1 + a2 * au) * u.mg[i];
+    r.g[i] = f1 * u.g[i]; r.mg[i] = (u.g[i] == 0 && u.mg[i] == 0) ? Q(0) : perr(f1, e1, u.g[i], u.mg[i]);
     for (int j = 0; j < NV; j++) {
-      r.h[i][j] = f2 * u.g[i] * u.g[j] + f1 * u.h[i][j];
-      r.mh[i][j] = (a2 + a3 * au) * u.mg[i] * u.mg[j] + (a1 + a2 * au) * u.mh[i][j];
+      Q gg = u.g[i] * u.g[j]; Q egg = (gg == 0 && u.mg[i] == 0 && u.mg[j] == 0) ? Q(0) : perr(u.g[i], u.mg[i], u.g[j], u.mg[j]);
+      r.h[i][j] = f2 * gg + f1 * u.h[i][j];
+      bool z = (gg == 0 && egg == 0 && u.h[i][j] == 0 && u.mh[i][j] == 0);
+      r.mh[i][j] = z ? Q(0) : perr(f2, e2, gg, egg) + perr(f1, e1, u.h[i][j], u.mh[i][j]) + qabs(r.h[i][j]);
     }
   }
   return r;
 }
 static inline RJ operator+(const RJ& a, const RJ& b) {
-  RJ r; r.v = a.v + b.v; r.mv = a.mv + b.mv;
+  RJ r; r.v = a.v + b.v; r.mv = a.mv + b.mv + qabs(r.v);
   for (int i = 0; i < NV; i++) {
-    r.g[i] = a.g[i] + b.g[i]; r.mg[i] = a.mg[i] + b.mg[i];
-    for (int j = 0; j < NV; j++) { r.h[i][j] = a.h[i][j] + b.h[i][j]; r.mh[i][j] = a.mh[i][j] + b.mh[i][j]; }
+    r.g[i] = a.g[i] + b.g[i]; r.mg[i] = (a.mg[i] == 0 && b.mg[i] == 0 && r.g[i] == a.g[i] + b.g[i] && (a.g[i] == 0 || b.g[i] == 0)) ? a.mg[i] + b.mg[i] : a.mg[i] + b.mg[i] + qabs(r.g[i]);
+    for (int j = 0; j < NV; j++) { r.h[i][j] = a.h[i][j] + b.h[i][j]; r.mh[i][j] = (a.h[i][j] == 0 || b.h[i][j] == 0) ? a.mh[i][j] + b.mh[i][j] : a.mh[i][j] + b.mh[i][j] + qabs(r.h[i][j]); }
   }
   return r;
 }
 static inline RJ operator-(const RJ& a, const RJ& b) {
-  RJ r; r.v = a.v - b.v; r.mv = a.mv + b.mv;
+  RJ r; r.v = a.v - b.v; r.mv = a.mv + b.mv + qabs(r.v);
   for (int i = 0; i < NV; i++) {
-    r.g[i] = a.g[i] - b.g[i]; r.mg[i] = a.mg[i] + b.mg[i];
-    for (int j = 0; j < NV; j++) { r.h[i][j] = a.h[i][j] - b.h[i][j]; r.mh[i][j] = a.mh[i][j] + b.mh[i][j]; }
+    r.g[i] = a.g[i] - b.g[i]; r.mg[i] = (a.g[i] == 0 || b.g[i] == 0) ? a.mg[i] + b.mg[i] : a.mg[i] + b.mg[i] + qabs(r.g[i]);
+    for (int j = 0; j < NV; j++) { r.h[i][j] = a.h[i][j] - b.h[i][j]; r.mh[i][j] = (a.h[i][j] == 0 || b.h[i][j] == 0) ? a.mh[i][j] + b.mh[i][j] : a.mh[i][j] + b.mh[i][j] + qabs(r.h[i][j]); }
   }
   return r;
 }
-static inline RJ operator-(const RJ& a) { return RJ(0) - a; }
+static inline RJ operator-(const RJ& a) { RJ r = a; r.v = -a.v; for (int i = 0; i < NV; i++) { r.g[i] = -a.g[i]; for (int j = 0; j < NV; j++) r.h[i][j] = -a.h[i][j]; } return r; }
 static inline RJ operator*(const RJ& a, const RJ& b) {
-  RJ r; r.v = a.v * b.v; r.mv = a.mv * b.mv;
+  RJ r; r.v = a.v * b.v; r.mv = perr(a.v, a.mv, b.v, b.mv);
   for (int i = 0; i < NV; i++) {
     r.g[i] = a.g[i] * b.v + a.v * b.g[i];
-    r.mg[i] = a.mg[i] * b.mv + a.mv * b.mg[i];
+    Q e = 0; int terms = 0;
+    if (a.g[i] != 0 || a.mg[i] != 0) { e += perr(a.g[i], a.mg[i], b.v, b.mv); terms++; }
+    if (b.g[i] != 0 || b.mg[i] != 0) { e += perr(a.v, a.mv, b.g[i], b.mg[i]); terms++; }
+    r.mg[i] = e + (terms > 1 ? qabs(r.g[i]) : Q(0));
     for (int j = 0; j < NV; j++) {
       r.h[i][j] = a.h[i][j] * b.v + a.g[i] * b.g[j] + a.g[j] * b.g[i] + a.v * b.h[i][j];
-      r.mh[i][j] = a.mh[i][j] * b.mv + a.mg[i] * b.mg[j] + a.mg[j] * b.mg[i] + a.mv * b.mh[i][j];
+      Q eh = 0; int th = 0;
+      if (a.h[i][j] != 0 || a.mh[i][j] != 0) { eh += perr(a.h[i][j], a.mh[i][j], b.v, b.mv); th++; }
+      if ((a.g[i] != 0 || a.mg[i] != 0) && (b.g[j] != 0 || b.mg[j] != 0)) { eh += perr(a.g[i], a.mg[i], b.g[j], b.mg[j]); th++; }
+      if ((a.g[j] != 0 || a.mg[j] != 0) && (b.g[i] != 0 || b.mg[i] != 0)) { eh += perr(a.g[j], a.mg[j], b.g[i], b.mg[i]); th++; }
+      if (b.h[i][j] != 0 || b.mh[i][j] != 0) { eh += perr(a.v, a.mv, b.h[i][j], b.mh[i][j]); th++; }
+      r.mh[i][j] = eh + (th > 1 ? (th - 1) * qabs(r.h[i][j]) : Q(0));
     }
   }
   return r;
@@ -109,11 +125,11 @@ struct VS { Q v, s; VS() : v(0), s(0) {} VS(Q a, Q b) : v(a), s(b) {} };
 static inline VS val(const RJ& a) { return VS(a.v, a.mv); }
 static inline VS d1(const RJ& a, int i) { return VS(a.g[i], a.mg[i]); }
 static inline VS d2(const RJ& a, int i, int j) { return VS(a.h[i][j], a.mh[i][j]); }
-static inline VS operator+(VS a, VS b) { return VS(a.v + b.v, a.s + b.s); }
-static inline VS operator-(VS a, VS b) { return VS(a.v - b.v, a.s + b.s); }
-static inline VS operator*(VS a, VS b) { return VS(a.v * b.v, a.s * b.s); }
-static inline VS operator*(Q a, VS b) { return VS(a * b.v, qabs(a) * b.s); }
-static inline VS operator/(VS a, Q b) { return VS(a.v / b, a.s / qabs(b)); }
+static inline VS operator+(VS a, VS b) { Q v = a.v + b.v; return VS(v, a.s + b.s + ((a.v == 0 || b.v == 0) ? Q(0) : qabs(v))); }
+static inline VS operator-(VS a, VS b) { Q v = a.v - b.v; return VS(v, a.s + b.s + ((a.v == 0 || b.v == 0) ? Q(0) : qabs(v))); }
+static inline VS operator*(VS a, VS b) { return VS(a.v * b.v, perr(a.v, a.s, b.v, b.s)); }
+static inline VS operator*(Q a, VS b) { return VS(a * b.v, qabs(a) * b.s + qabs(a * b.v)); }
+static inline VS operator/(VS a, Q b) { return VS(a.v / b, a.s / qabs(b) + qabs(a.v / b)); }
 static inline VS operator-(VS a) { return VS(-a.v, a.s); }
 
 static inline std::string q2s(Q x, int digits = 36) {
